@@ -41,12 +41,12 @@ func walletScript() (script []byte, offPay, offCall int) {
 	tb := tail.Bytes()
 
 	w := io.NewBufBinWriter()
-	emit.InitSlot(w.BinWriter, 0, 3)                              // 0..2
-	emit.Opcodes(w.BinWriter, opcode.LDARG2, opcode.ISNULL)       // 3,4
-	tailStart := 12                                               // 3+2+2+1+2+2
-	emit.Instruction(w.BinWriter, opcode.JMPIF, []byte{byte(tailStart + retPos - 5)}) // at 5
-	emit.Opcodes(w.BinWriter, opcode.LDARG2)                      // 7
-	emit.Instruction(w.BinWriter, opcode.ISTYPE, []byte{0x40})    // 8,9 (Array)
+	emit.InitSlot(w.BinWriter, 0, 3)                                                        // 0..2
+	emit.Opcodes(w.BinWriter, opcode.LDARG2, opcode.ISNULL)                                 // 3,4
+	tailStart := 12                                                                         // 3+2+2+1+2+2
+	emit.Instruction(w.BinWriter, opcode.JMPIF, []byte{byte(tailStart + retPos - 5)})       // at 5
+	emit.Opcodes(w.BinWriter, opcode.LDARG2)                                                // 7
+	emit.Instruction(w.BinWriter, opcode.ISTYPE, []byte{0x40})                              // 8,9 (Array)
 	emit.Instruction(w.BinWriter, opcode.JMPIFNOT, []byte{byte(tailStart + throwPos - 10)}) // at 10
 	if w.Len() != tailStart {
 		panic("wallet script layout")
